@@ -37,7 +37,13 @@ def prelude(types):
     return "\n".join(out) + "\n"
 
 
+from . import added as AD
+ADDED_POINTS = {u["name"]: u for m, u in AD.UNITS if m == "thermodynamic_temperature"}     # an offset scale added downstream with unit!
+
+
 def slot(ttu, tiu, bl, br, ty):
+    if ttu in ADDED_POINTS:
+        return slot("kelvin", tiu, bl, br, ty).replace("type NP = uom::si::thermodynamic_temperature::kelvin;", f"type NP = {ttu};")
     rt = STYPES[ty]["rust"]
     return f"""    type V = {rt};
     type P = uom::si::thermodynamic_temperature::ThermodynamicTemperature<{units_type(bl, ty)}, V>;
@@ -94,12 +100,13 @@ def run(ctx):
         return
     quick = ctx.tier == "quick"
     qt, qi = t.qmap["thermodynamic_temperature"], t.qmap["temperature_interval"]
-    h = Harness("c09", FEATURES, prelude=prelude(TYPES))
+    h = Harness("c09", FEATURES, prelude=prelude(TYPES) + AD.PRELUDE)
     d = qt["dim"]
     dz = T.zlist(d)
     cases, meta = [], {}
     pairs_b = [("si", "si"), ("si", "mk"), ("mk", "kk"), ("kk", "si"), ("mk", "mk")]
     ttus = qt["units"] if not quick else [u for u in qt["units"] if u["name"] in ("kelvin", "degree_celsius", "degree_fahrenheit", "degree_rankine", "millikelvin", "kilokelvin")] + ctx.rng.fork("tt").sample(qt["units"], 3)
+    ttus = list(ttus) + list(ADDED_POINTS.values())
     for ty in TYPES:
         for (bl, br) in pairs_b:
             for pu in ttus:
@@ -123,7 +130,7 @@ def run(ctx):
     for ty in TYPES:
         for bl in TBASES:
             sl = h.slot(anchor_slot(bl, ty))
-            cid = f"t{len(cases)}"
+            cid = f"an{len(anchor_cases)}"
             if B.is_float(ty):
                 args = [VG.val_text(ty, nearest(Fraction(x), ty, x)) for x in ("0", "273.15", "32")]
             else:
@@ -259,7 +266,7 @@ def run(ctx):
     cov["anchor_cases"] = len(anchor_cases)
     cov["anchor_failures"] = len(anchor_bad)
     # the same programs built WITHOUT autoconvert (same-base pairs only: the others do not compile there) give the same answers
-    hn = Harness("c09n", [f for f in FEATURES if f != "autoconvert"], prelude=prelude(TYPES))
+    hn = Harness("c09n", [f for f in FEATURES if f != "autoconvert"], prelude=prelude(TYPES) + AD.PRELUDE)
     ncases, nref = [], {}
     slot_n = {}
     for cid, sl, args in cases:
